@@ -848,6 +848,21 @@ class Close(WriteSpec):
         return [Outcome('ok')]
 
 
+def vote_state(c, h):
+    """VOTE-STATE: either the transaction has been voted (its bytes lie beyond the committed end and
+    _nextpos says so) or nothing lies beyond the committed end and no reader buffers stale bytes.
+    _abort cuts the file only in the first state - a caller in any other state (e.g. after a vote
+    that failed half-way) must clean up itself."""
+    fa = c.obj(h.file).f
+    S = c.obj(h.self).f
+    np_, pos = S['_nextpos'], S['_pos']
+    if not (isinstance(np_, VInt) and isinstance(pos, VInt)):
+        return ('VOTE-STATE', False)
+    return ('VOTE-STATE', z3.Or(
+        z3.And(np_.t > pos.t, fa['size'] >= pos.t),
+        z3.And(np_.t == 0, fa['size'] == pos.t, z3.Not(c.obj(h.pool).f['stale']))))
+
+
 class Abort(WriteSpec):
     func = 'ZODB.FileStorage.FileStorage:FileStorage._abort'
     props = ('C01', 'C02', 'C05', 'C13')
@@ -865,6 +880,10 @@ class Abort(WriteSpec):
         c.roles.nested_array(c.obj(h.dirty).f['set'], 'boid', 'btid')
         c.roles.nested_array(c.obj(h.blobfs).f['files'], 'boid', 'btid')
         return {'self': h.self}
+
+    def requires(self, c, E):
+        # (checked at every call site: the two setup cases above are exactly its two disjuncts)
+        return [vote_state(c, ghost_of(c, E['self']))]
 
     def modifies(self, c, E):
         h = ghost_of(c, E['self'])
@@ -1072,6 +1091,15 @@ class TpcBegin(WriteSpec):
                 'tid': c.fresh_bytes(8, 'tid') if case == 'tid-given' else NONE,
                 'status': VStr(codes=[z3.Int(fresh_name('status'))])}
 
+    def requires(self, c, E):
+        # LOCKINV from the calling thread's point of view (T3): the commit lock is held exactly when a
+        # transaction is recorded; the caller does not hold the storage lock
+        h = ghost_of(c, E['self'])
+        S = c.obj(h.self).f
+        recorded = isinstance(S['_transaction'], VOpaque)
+        return [('LOCKINV', c.obj(h.commit_lock).f['held'] == (1 if recorded else 0)),
+                ('storage-lock-not-held-by-the-caller', c.obj(h.lock).f['held'] == 0)]
+
     def hooks(self, c):
         hk = WriteSpec.hooks(self, c)
 
@@ -1163,7 +1191,7 @@ class TpcAbort(WriteSpec):
 
     def requires(self, c, E):
         h = ghost_of(c, E['self'])
-        return [('LOCKINV', c.obj(h.commit_lock).f['held'] == 1)]
+        return [('LOCKINV', c.obj(h.commit_lock).f['held'] == 1), vote_state(c, h)]
 
     def modifies(self, c, E):
         h = ghost_of(c, E['self'])
